@@ -30,7 +30,7 @@ func initAwaitExpressionNode() {
 			return value.Ref(self), value.Undefined
 
 		},
-		vm.DefWithParameters(2),
+		vm.DefWithParameters(3),
 	)
 
 	vm.Def(
